@@ -631,7 +631,7 @@ class Interp:
             return self.eval(args[0], st, func, selfobj)
         if txt == 'len' and len(args) == 1:
             v = self.eval(args[0], st, func, selfobj)
-            if isinstance(v, (Buf, BufSlice, Bytes, Axis)):
+            if isinstance(v, (Buf, BufSlice, Bytes, Axis, RangeV)):
                 return v.length
             if isinstance(v, Tup):
                 return C(len(v.elts))
@@ -659,6 +659,11 @@ class Interp:
             vs = [self.eval(a, st, func, selfobj) for a in args]
             if all(isinstance(v, Tup) for v in vs) and vs:
                 return Tup([Tup(list(x)) for x in zip(*[v.elts for v in vs])])
+            return Opaque(U(e))
+        if txt == 'range' and 1 <= len(args) <= 2 and not e.keywords:
+            vs = [self.eval(a, st, func, selfobj) for a in args]
+            if all(isinstance(v, Poly) for v in vs):
+                return RangeV(C(0), vs[0], e) if len(vs) == 1 else RangeV(vs[0], vs[1] - vs[0], e)
             return Opaque(U(e))
         if txt == 'divmod' and len(args) == 2:
             a = self.eval(args[0], st, func, selfobj)
@@ -960,6 +965,11 @@ class Interp:
                     return C(0), vs[0], enum, it
                 if len(vs) == 2:
                     return vs[0], vs[1] - vs[0], enum, it
+        if isinstance(it, (ast.Name, ast.Attribute)):
+            # a range object held in a local: blocks = range(lo, hi); for b in blocks
+            v = self.eval(it, st, func, selfobj)
+            if isinstance(v, RangeV):
+                return v.lo, v.count, enum, v.node
         return None
 
     @staticmethod
@@ -1022,6 +1032,17 @@ def _first_name(t):
     if isinstance(t, (ast.Tuple, ast.List)) and t.elts:
         return _first_name(t.elts[-1])
     return U(t).replace(' ', '')
+
+
+class RangeV:
+    """range(lo, lo + count) held as a value"""
+
+    def __init__(self, lo, count, node):
+        self.lo, self.count, self.node = lo, count, node
+        self.length = count
+
+    def __repr__(self):
+        return 'range(%r, +%r)' % (self.lo, self.count)
 
 
 class Packed:
